@@ -374,19 +374,38 @@ func runC10R3(c *eng.Ctx, r *eng.RuleCtx) {
 				x, y, eq, ok := eng.EqAtom(fc)
 				v, isC := eng.ConstStr(info, y)
 				sx, isS := ast.Unparen(x).(*ast.SelectorExpr)
-				return ok && isC && v == "" && isS && sx.Sel.Name == s.rawField && eq == pos
+				return ok && isC && v == "" && isS && sx.Sel.Name == s.rawField && eq == pos && !eng.IsField(info, x, eff)
 			})
 		}
-		okConst, okRaw := false, false
+		// two accepted shapes: (A) `if raw == "" { eff = const } else { eff = raw }` (either order of the arms);
+		// (B) `eff = raw; if eff == "" { eff = const }`. Every store to the field must be one of these.
+		effEmpty := g.FactEdge(func(fc eng.Fact) bool {
+			x, y, eq, ok := eng.EqAtom(fc)
+			v, isC := eng.ConstStr(info, y)
+			return ok && eq && isC && v == "" && eng.IsField(info, x, eff)
+		})
+		var constNode, rawNode *eng.GNode
+		other := false
 		for _, n := range g.Nodes {
 			as, ok := n.Node.(*ast.AssignStmt)
 			if !ok || len(as.Lhs) != 1 || !eng.IsField(info, as.Lhs[0], eff) {
 				continue
 			}
-			if v, isC := eng.ConstStr(info, as.Rhs[0]); isC {
-				okConst = v == s.constVal && g.OnlyVia(n, nil, rawEmpty(true))
-			} else if sx, isS := ast.Unparen(as.Rhs[0]).(*ast.SelectorExpr); isS && sx.Sel.Name == s.rawField {
-				okRaw = g.OnlyVia(n, nil, rawEmpty(false))
+			if v, isC := eng.ConstStr(info, as.Rhs[0]); isC && v == s.constVal && constNode == nil {
+				constNode = n
+			} else if sx, isS := ast.Unparen(as.Rhs[0]).(*ast.SelectorExpr); isS && sx.Sel.Name == s.rawField && rawNode == nil {
+				rawNode = n
+			} else {
+				other = true
+			}
+		}
+		okConst, okRaw := false, false
+		if constNode != nil && rawNode != nil && !other {
+			if g.OnlyVia(constNode, nil, rawEmpty(true)) {
+				okConst = true
+				okRaw = g.OnlyVia(rawNode, nil, rawEmpty(false))
+			} else if g.OnlyVia(constNode, nil, effEmpty) && g.OnlyVia(constNode, func(m *eng.GNode) bool { return m == rawNode }, nil) {
+				okConst, okRaw = true, true
 			}
 		}
 		r.Check(okConst && okRaw, fmt.Sprintf("%s %s.%s", f.Key, s.effType, s.field), f.Decl.Pos(), fmt.Sprintf("%q when the raw %s is empty, the raw value otherwise", s.constVal, s.rawField), fmt.Sprintf("the default of %s.%s is not %q-iff-empty", s.effType, s.field, s.constVal))
@@ -403,13 +422,16 @@ func runC10R3(c *eng.Ctx, r *eng.RuleCtx) {
 				sx, isS := ast.Unparen(x).(*ast.SelectorExpr)
 				return ok && eq && isC && v == "false" && isS && sx.Sel.Name == fl
 			})
+			// accepted shapes: `eff = true; if raw == "false" { eff = false }` or the single store `eff = raw != "false"`
 			okTrue, okFalse := false, false
 			var trueNode *eng.GNode
+			nStores := 0
 			for _, n := range g.Nodes {
 				as, ok := n.Node.(*ast.AssignStmt)
 				if !ok || len(as.Lhs) != 1 || !eng.IsField(info, as.Lhs[0], eff) {
 					continue
 				}
+				nStores++
 				if b, isC := constBool(info, as.Rhs[0]); isC {
 					if b {
 						okTrue = true
@@ -417,6 +439,13 @@ func runC10R3(c *eng.Ctx, r *eng.RuleCtx) {
 					} else {
 						okFalse = g.OnlyVia(n, nil, isFalseRaw) && trueNode != nil && g.OnlyVia(n, func(m *eng.GNode) bool { return m == trueNode }, nil)
 					}
+					continue
+				}
+				x, y, eq, isEq := eng.EqAtom(eng.Fact{X: as.Rhs[0], Pos: true})
+				v, isStr := eng.ConstStr(info, y)
+				sx, isS := ast.Unparen(x).(*ast.SelectorExpr)
+				if isEq && !eq && isStr && v == "false" && isS && sx.Sel.Name == fl && nStores == 1 {
+					okTrue, okFalse = true, true
 				} else {
 					okTrue = false
 				}
